@@ -334,6 +334,32 @@ func work() {
 // other doc d
 func other() { y := old(); _ = y } // eol other d
 `},
+	{name: "pos-transition-with-elision", marker: "nosuchname", fixed: "one,two",
+		patch: "@@\nvar f, T, X identifier\n@@\n func f() {\n   ...\n-  type T X\n+  type T = X\n   ...\n }\n",
+		src: `// header p
+package p
+
+func one() {
+	pre()
+	type a int
+	post()
+}
+
+// mid doc p
+func mid() {
+	// inside mid p
+	keep() // eol mid p
+}
+
+func two() {
+	pre()
+	type b string
+	post()
+}
+
+// tail doc p
+var tail = 1
+`},
 	{name: "two-changes", marker: "old", fixed: "gone",
 		patch: "@@\nvar x expression\n@@\n-old(x)\n+mid(x)\n\n@@\n@@\n-func gone() {}\n+var gone = func() {}\n",
 		src: `package p
